@@ -309,6 +309,8 @@ class Session(object):
         self.pending = list(self.route)  # calls made since the previous ask (reported with the next event)
         self.flag = True  # what the calls so far say about interaction
         self.nswitch = 0
+        self.raw = None  # the raw seekable stream under a "ctor_stream" I/O
+        self.offset = 0  # lines of the current script that earlier stream wrappers have consumed
         io = None
         for o in self.route:
             io = self.call(io, o)
@@ -326,6 +328,21 @@ class Session(object):
         k, t = o["op"], joined(o["ls"])
         if k == "ctor":
             return BufferedIO(t, formatter=_formatter())
+        if k in ("ctor_stream", "rewrap"):
+            # an I/O over a StreamInputStream around a raw io.BytesIO (stdin redirected from a file); "rewrap" builds a NEW
+            # stream wrapper, Input and IO around the SAME raw stream, as every create_io / ConsoleIO() does with sys.stdin
+            import io as _io
+
+            from clikit.api.io import IO, Input, Output
+            from clikit.io.input_stream import StreamInputStream
+            from clikit.io.output_stream import BufferedOutputStream
+
+            if k == "ctor_stream":
+                self.raw = _io.BytesIO(t.encode("utf-8"))
+                fmt = _formatter()
+                return IO(Input(StreamInputStream(self.raw)), Output(BufferedOutputStream(), fmt), Output(BufferedOutputStream(), fmt))
+            self.flag = True  # a new I/O may ask
+            return IO(Input(StreamInputStream(self.raw)), io.output, io.error_output)
         if k == "set_input":
             io.set_input(t)
         elif k == "stream_set":
@@ -349,15 +366,17 @@ class Session(object):
         E = _env()
         for o in ops:
             o = dict(o)
-            self.call(self.io, o)
+            self.io = self.call(self.io, o)
             self.pending.append(o)
             if o["op"] in ("set_input", "stream_set"):
-                self.lines = list(o["ls"])
+                self.lines, self.offset = list(o["ls"]), 0
             elif o["op"] == "clear_input":
-                self.lines = []
+                self.lines, self.offset = [], 0
             elif o["op"] in ("append_input", "stream_append"):
                 self.lines = self.lines + list(o["ls"])
         if self.io.input.stream is not self.ins:  # the I/O holds another stream now: the budget follows it
+            if not any(o["op"] in ("set_input", "stream_set", "clear_input") for o in ops):
+                self.offset += self.ins.consumed - self.ins.base  # same script: what was read stays read
             self.ins = E["BudgetIn"](self.io.input.stream)
             self.io.input.set_stream(self.ins)
 
@@ -365,7 +384,7 @@ class Session(object):
         """asks the question (a fresh object unless one is given), returns the event record"""
         E = _env()
         ins, out, err = self.ins, self.out, self.err
-        start = ins.consumed - ins.base
+        start = self.offset + ins.consumed - ins.base
         r0 = ins.reads
         o0, e0 = len(out.fetch()), len(err.fetch())
         allow = (len(self.lines) - start) + qd["maxAtt"] + SLACK
@@ -402,7 +421,7 @@ class Session(object):
             "start": start,
             "obs": {
                 "kind": kind, "cls": cls, "val": proj(val),
-                "reads": min(ins.reads, ins.budget) - r0, "consumed": ins.consumed - ins.base - start,
+                "reads": min(ins.reads, ins.budget) - r0, "consumed": self.offset + ins.consumed - ins.base - start,
                 "errs": sum(1 for ln in etext.split("\n") if E["ERR"] in ln),
                 "prompts": etext.count(E["QST"]),
                 "outBytes": len(out.fetch()) - o0, "errBytes": len(etext),
@@ -466,7 +485,7 @@ def run_case(case):
                 except (KeyboardInterrupt, Stalled):
                     raise
                 except Exception as e:  # noqa
-                    tr.append(failed_event(case["objects"][i], s.lines, s.pending, k + 1, i + 1, reask, e, s.ins.consumed - s.ins.base))
+                    tr.append(failed_event(case["objects"][i], s.lines, s.pending, k + 1, i + 1, reask, e, s.offset + s.ins.consumed - s.ins.base))
                     s.pending = []
                     continue
                 q, cl_, qd = objs[i]
@@ -500,6 +519,8 @@ def case_of(rec, pools):
         if rc == 2:
             return {"objects": [qd], "sessions": [{"lines": lines, "asks": [0, {"obj": 0, "reconf": {"multi": rec["m"]}}],
                                                    "route": _route(rec)}]}
+        if rc == 5:  # a new stream wrapper / IO around the same raw stream before the object is asked again
+            return {"objects": [qd], "sessions": [{"lines": lines, "asks": [0, {"obj": 0, "reload": [R("rewrap")]}], "route": _route(rec)}]}
         if rc in (3, 4):  # a new, shorter script on the same I/O before the object is asked again
             op = R("set_input", [x.replace("~", "\r") for x in rec["s2"]]) if rc == 3 else R("clear_input")
             return {"objects": [qd], "sessions": [{"lines": lines, "asks": [0, {"obj": 0, "reload": [op]}], "route": _route(rec)}]}
@@ -778,8 +799,17 @@ def rand_case(rng):
             lines += [rand_line(rng, current[asks[-1]]) for _ in range(3)]
         for ops, seg in segments:
             ops.append(R("clear_input") if not seg and rng.random() < 0.5 else R(rng.choice(["set_input", "set_input", "stream_set"]), seg))
-        sessions.append({"lines": first_lines, "asks": out_asks,
-                         "route": rand_route(rng, first_lines, objects[asks[0]]["interactive"] if asks else True)})
+        inter0 = objects[asks[0]]["interactive"] if asks else True
+        if not segments and rng.random() < 0.15:
+            # the input is a raw seekable stream; new wrappers / IOs are built around it between the questions
+            for j in range(1, len(out_asks)):
+                if rng.random() < 0.5:
+                    a = out_asks[j] if isinstance(out_asks[j], dict) else {"obj": out_asks[j]}
+                    a["reload"] = [R("rewrap")]
+                    out_asks[j] = a
+            sessions.append({"lines": first_lines, "asks": out_asks, "route": [R("ctor_stream", first_lines)] + ([] if inter0 else [R("io_inter", b=False)])})
+            continue
+        sessions.append({"lines": first_lines, "asks": out_asks, "route": rand_route(rng, first_lines, inter0)})
     return {"objects": objects, "sessions": sessions}
 
 
